@@ -4,7 +4,7 @@
   last-write-wins dictionary semantics and the same dense re-indexing.
 -/
 import PK.Model.Card
-import Std.Data.HashMap
+import PK.Model.Trie
 namespace PK
 
 /-- `Label` members in definition order, coded 0..8 -/
@@ -93,38 +93,38 @@ deriving Repr, DecidableEq, Inhabited, BEq
 
 abbrev Key := Nat × Bool
 
+/-- the trie key of a table key `(hash, suitedness)` -/
+def Key.code (k : Key) : Nat := 2 * k.1 + (if k.2 then 1 else 0)
+
 /-- A finished lookup: association list in first-insertion key order (python dict order),
     values from the last write, indices densely re-ranked (`__reset_ranks`). -/
 structure Lookup where
   entries : List (Key × Entry)
-  map : Std.HashMap Key Entry
+  map : Trie Entry
 
-def insertSorted (x : Nat) : List Nat → List Nat
-  | [] => [x]
-  | y :: ys => if x < y then x :: y :: ys else if x = y then y :: ys else y :: insertSorted x ys
+def Lookup.get? (t : Lookup) (k : Key) : Option Entry := t.map.get? k.code
+def Lookup.contains (t : Lookup) (k : Key) : Bool := t.map.contains k.code
 
 /-- last-write-wins dictionary + dense re-indexing -/
 def Builder.finish (b : Builder) : Lookup :=
   let ins := b.raw.reverse
   -- dictionary semantics: key order of first insertion, value of last insertion
-  let m : Std.HashMap Key Entry :=
-    ins.foldl (fun m e => m.insert (e.hash, e.suited) ⟨e.index, e.label⟩) {}
+  let m : Trie Entry :=
+    ins.foldl (fun m e => m.insert (Key.code (e.hash, e.suited)) ⟨e.index, e.label⟩) Trie.empty
   let keys : List Key :=
-    (ins.foldl (fun (acc : List Key × Std.HashMap Key Unit) e =>
-      let k := (e.hash, e.suited)
-      if acc.2.contains k then acc else (k :: acc.1, acc.2.insert k ())) ([], {})).1.reverse
-  let vals := keys.map fun k => (k, m.getD k default)
-  -- surviving indices are increasing in insertion order of their entry, so a sorted
-  -- duplicate-free list of them gives the dense rank by position
-  let idxs := (vals.map (·.2.index)).toArray.qsort (· < ·) |>.toList
-  let idxs := idxs.foldl (fun acc i => match acc with
-    | j :: _ => if i == j then acc else i :: acc
-    | [] => [i]) [] |>.reverse
-  let rankMap : Std.HashMap Nat Nat :=
-    (idxs.zip (List.range idxs.length)).foldl (fun m (i, r) => m.insert i r) {}
-  let entries := vals.map fun (k, e) => (k, (⟨rankMap.getD e.index 0, e.label⟩ : Entry))
+    (ins.foldl (fun (acc : List Key × Trie Unit) e =>
+      let k : Key := (e.hash, e.suited)
+      if acc.2.contains k.code then acc else (k :: acc.1, acc.2.insert k.code ())) ([], Trie.empty)).1.reverse
+  let vals := keys.map fun k => (k, (m.get? k.code).getD default)
+  -- `__reset_ranks`: the surviving raw indices, ranked densely in increasing order.  Raw indices are
+  -- 0 .. count-1, so the dense rank of `i` is the number of surviving indices below it.
+  let alive : Trie Unit := vals.foldl (fun t (_, e) => t.insert e.index ()) Trie.empty
+  let rankMap : Trie Nat :=
+    ((List.range b.count).foldl (fun (acc : Trie Nat × Nat) i =>
+      if alive.contains i then (acc.1.insert i acc.2, acc.2 + 1) else acc) (Trie.empty, 0)).1
+  let entries := vals.map fun (k, e) => (k, (⟨(rankMap.get? e.index).getD 0, e.label⟩ : Entry))
   { entries := entries
-    map := entries.foldl (fun m (k, e) => m.insert k e) {} }
+    map := entries.foldl (fun m (k, e) => m.insert k.code e) Trie.empty }
 
 open Label in
 def standardBuilder (ro : List Rank) : Builder :=
@@ -230,7 +230,7 @@ def Tables.build : Tables :=
   let ts := LookupId.all.map fun l => (l, l.builder.finish)
   { tbl := fun l => match ts.find? (·.1 == l) with
       | some (_, t) => t
-      | none => { entries := [], map := {} } }
+      | none => { entries := [], map := Trie.empty } }
 
 /-- errors of evaluation -/
 inductive EvalErr where | keyError | valueError
@@ -248,13 +248,13 @@ def hasEntry (T : Tables) (l : LookupId) (cs : List Card) : Except EvalErr Bool 
   match getKey l cs with
   | .error .valueError => .ok false
   | .error .keyError => .error .keyError
-  | .ok k => .ok ((T.tbl l).map.contains k)
+  | .ok k => .ok ((T.tbl l).contains k)
 
 /-- `Lookup.get_entry(cards)` -/
 def getEntry (T : Tables) (l : LookupId) (cs : List Card) : Except EvalErr Entry :=
   match getKey l cs with
   | .error e => .error e
-  | .ok k => match (T.tbl l).map[k]? with
+  | .ok k => match (T.tbl l).get? k with
     | some e => .ok e
     | none => .error .valueError
 
@@ -262,6 +262,6 @@ def getEntry (T : Tables) (l : LookupId) (cs : List Card) : Except EvalErr Entry
 def getEntryOrNone (T : Tables) (l : LookupId) (cs : List Card) : Except EvalErr (Option Entry) :=
   match getKey l cs with
   | .error e => .error e
-  | .ok k => .ok (T.tbl l).map[k]?
+  | .ok k => .ok ((T.tbl l).get? k)
 
 end PK
